@@ -285,3 +285,240 @@ Proof.
   { intros k n Hin. destruct HS as [Ha _]. destruct (Ha k n Hin) as [_ G]. apply glookup_Some_In. exact G. }
   pose proof (prun_inv ks sched _ (PI_start ks s HS ND HC)) as [_ [_ [_ [_ HE]]]]. exact HE.
 Qed.
+
+(* ================================================================== interleaved threads WITH eviction *)
+(* ---- names contributed by the threads, generically ---- *)
+Lemma fm_upd (c : tstate -> list name) : forall i l t t', nth_error l i = Some t ->
+  Permutation (c t ++ flat_map c (upd i t' l)) (c t' ++ flat_map c l).
+Proof.
+  induction i as [|i IH]; intros [|y l] t t' Hn; cbn [nth_error upd] in *; try discriminate.
+  - inversion Hn; subst. cbn [flat_map]. rewrite !app_assoc. apply Permutation_app_tail. apply Permutation_app_comm.
+  - cbn [flat_map]. specialize (IH l t t' Hn).
+    eapply perm_trans; [apply Permutation_app_swap_app|]. eapply perm_trans; [apply Permutation_app_head; exact IH|]. apply Permutation_app_swap_app.
+Qed.
+
+Definition own (t : tstate) : list name := match t with TNamed _ n | TDefined _ n => [n] | _ => [] end.
+Definition pend (t : tstate) : list name := match t with TNamed _ n => [n] | _ => [] end.
+Lemma pending_is_fm l : pending l = flat_map pend l.
+Proof. reflexivity. Qed.
+
+Definition PI2 (ks : list key) (s : pstate) : Prop :=
+  NoDup (flat_map pend (threads s) ++ map fst (pglobals s)) /\
+  (forall n, In n (flat_map pend (threads s) ++ map fst (pglobals s)) -> n < pctr s) /\
+  (forall k n, In (k, n) (pcache s) -> In (n, k) (pglobals s)) /\
+  Forall (fun t => owns t (pglobals s)) (threads s) /\
+  Forall2 agrees ks (threads s) /\
+  NoDup (cnames (pcache s)) /\
+  NoDup (flat_map own (threads s)) /\
+  (forall n, In n (flat_map own (threads s)) -> ~ In n (cnames (pcache s))).
+
+Lemma In_gdel_other n m k g : m <> n -> In (m, k) g -> In (m, k) (gdel n g).
+Proof.
+  intros H. induction g as [|[a b] g IH]; cbn [gdel In]; [tauto|]. intros [E|Hin].
+  - inversion E; subst. destruct (Nat.eqb_spec m n); [contradiction|]. left; reflexivity.
+  - destruct (Nat.eqb a n); [apply IH; exact Hin|right; apply IH; exact Hin].
+Qed.
+Lemma gdel_names_sub n g : forall m, In m (map fst (gdel n g)) -> In m (map fst g).
+Proof. intros m H. apply in_map_iff in H. destruct H as [[a k] [E H]]. apply gdel_incl in H. apply in_map_iff. exists (a, k). split; assumption. Qed.
+Lemma NoDup_app_sub {A} (l g g' : list A) : NoDup (l ++ g) -> NoDup g' -> (forall x, In x g' -> In x g) -> NoDup (l ++ g').
+Proof.
+  induction l as [|a l IH]; cbn [List.app]; intros H Hg Hs; [exact Hg|]. inversion H; subst. constructor.
+  - intro Hin. apply H2. apply in_app_or in Hin. apply in_or_app. destruct Hin; [left; assumption|right; apply Hs; assumption].
+  - apply IH; assumption.
+Qed.
+Lemma gdel_nodup2 n g : NoDup (map fst g) -> NoDup (map fst (gdel n g)).
+Proof.
+  induction g as [|[a k] g IH]; cbn [gdel map fst]; [constructor|]. intro H. inversion H; subst.
+  destruct (Nat.eqb a n); [apply IH; assumption|]. cbn [map fst]. constructor; [|apply IH; assumption].
+  intro Hin. apply H2. eapply gdel_names_sub; eauto.
+Qed.
+Lemma not_held_owns n ts g : held n ts = false -> Forall (fun t => owns t g) ts -> Forall (fun t => owns t (gdel n g)) ts.
+Proof.
+  intros H F. induction F as [|t ts Ht Hts IH]; [constructor|]. cbn [held existsb] in H. apply orb_false_iff in H. destruct H as [H1 H2].
+  constructor; [|apply IH; exact H2].
+  destruct t; cbn [owns holds] in *; auto; apply In_gdel_other; auto; intro E; subst; rewrite Nat.eqb_refl in H1; discriminate.
+Qed.
+Lemma NoDup_app_r {A} (l g : list A) : NoDup (l ++ g) -> NoDup g.
+Proof. induction l as [|a l IH]; cbn [List.app]; [auto|]. intro H. inversion H; auto. Qed.
+
+Definition PI3 (ks : list key) (s : pstate) : Prop :=
+  PI2 ks s /\ (forall n, In n (flat_map own (threads s)) -> n < pctr s).
+
+Lemma perm_nil_l {A} (a b : list A) : Permutation ([] ++ a) ([] ++ b) -> Permutation a b.
+Proof. auto. Qed.
+Lemma existsb_eqb_false n l : existsb (Nat.eqb n) l = false -> ~ In n l.
+Proof. intros H Hin. assert (existsb (Nat.eqb n) l = true) by (apply existsb_exists; exists n; split; [exact Hin|apply Nat.eqb_refl]). congruence. Qed.
+Lemma cnames_lt s ks : PI2 ks s -> forall n, In n (cnames (pcache s)) -> n < pctr s.
+Proof.
+  intros [HA [HB [HC _]]] n Hin. unfold cnames in Hin. apply in_map_iff in Hin. destruct Hin as [[k m] [E H]]. cbn [snd] in E. subst m.
+  apply HB. apply in_or_app. right. apply in_map_iff. exists (n, k). split; [reflexivity|apply HC; exact H].
+Qed.
+
+Theorem pstep2_inv cap ks s i : PI3 ks s -> PI3 ks (pstep2 cap s i).
+Proof.
+  intros [[HA [HB [HC [HD [HE [HF [HG HH]]]]]]] HI].
+  pose proof (cnames_lt s ks (conj HA (conj HB (conj HC (conj HD (conj HE (conj HF (conj HG HH)))))))) as HCL.
+  unfold pstep2. destruct (nth_error (threads s) i) as [t|] eqn:En; [|split; [repeat split; assumption|exact HI]].
+  destruct (Forall2_nth _ _ _ _ _ HE En) as [k0 [Ek Hag]].
+  pose proof (Forall_nth _ _ _ _ HD En) as Hown.
+  destruct t as [k|k|k n|k n|k n|r].
+  - (* ask the cache *)
+    cbn [agrees key_of] in Hag. inversion Hag; subst k0.
+    destruct (cfind k (pcache s)) as [n|] eqn:Ef.
+    + pose proof (perm_nil_l _ _ (fm_upd pend i (threads s) (TStart k) (THolding k n) En)) as PP.
+      pose proof (perm_nil_l _ _ (fm_upd own i (threads s) (TStart k) (THolding k n) En)) as PO.
+      destruct (cdel_names k (pcache s) n Ef HF) as [N1 N2]. pose proof (cfind_In _ _ _ Ef) as Hin.
+      split; [|cbn [pctr threads]; intros m Hm; apply HI; eapply Permutation_in; [exact PO|exact Hm]].
+      unfold PI2. cbn [pctr pglobals pcache threads]. split; [|split; [|split; [|split; [|split; [|split; [|split]]]]]].
+      * eapply Permutation_NoDup; [apply Permutation_app_tail; apply Permutation_sym; exact PP|exact HA].
+      * intros m Hm. apply HB. eapply Permutation_in; [apply Permutation_app_tail; exact PP|exact Hm].
+      * intros k1 n1 [E|H]; [inversion E; subst; apply HC; exact Hin|apply HC; eapply cdel_incl; eauto].
+      * apply upd_Forall; [exact HD|]. cbn [owns]. apply HC. exact Hin.
+      * eapply upd_Forall2; [exact HE|exact Ek|reflexivity].
+      * cbn [cnames map snd]. constructor; assumption.
+      * eapply Permutation_NoDup; [apply Permutation_sym; exact PO|exact HG].
+      * intros m Hm Hc. apply (HH m); [eapply Permutation_in; [exact PO|exact Hm]|].
+        cbn [cnames map snd] in Hc. destruct Hc as [E|Hc]; [subst; change m with (snd (k, m)); apply in_map; exact Hin|].
+        unfold cnames in *. apply in_map_iff in Hc. destruct Hc as [x [Ex Hx]]. apply in_map_iff. exists x. split; [exact Ex|eapply cdel_incl; eauto].
+    + pose proof (perm_nil_l _ _ (fm_upd pend i (threads s) (TStart k) (TAlloc k) En)) as PP.
+      pose proof (perm_nil_l _ _ (fm_upd own i (threads s) (TStart k) (TAlloc k) En)) as PO.
+      split; [|cbn [pctr threads]; intros m Hm; apply HI; eapply Permutation_in; [exact PO|exact Hm]].
+      unfold PI2. cbn [pctr pglobals pcache threads]. split; [|split; [|split; [|split; [|split; [|split; [|split]]]]]].
+      * eapply Permutation_NoDup; [apply Permutation_app_tail; apply Permutation_sym; exact PP|exact HA].
+      * intros m Hm. apply HB. eapply Permutation_in; [apply Permutation_app_tail; exact PP|exact Hm].
+      * exact HC.
+      * apply upd_Forall; [exact HD|exact I].
+      * eapply upd_Forall2; [exact HE|exact Ek|reflexivity].
+      * exact HF.
+      * eapply Permutation_NoDup; [apply Permutation_sym; exact PO|exact HG].
+      * intros m Hm. apply HH. eapply Permutation_in; [exact PO|exact Hm].
+  - (* take a name *)
+    cbn [agrees key_of] in Hag. inversion Hag; subst k0.
+    pose proof (fm_upd pend i (threads s) (TAlloc k) (TNamed k (pctr s)) En) as PP. cbn [pend List.app] in PP.
+    pose proof (fm_upd own i (threads s) (TAlloc k) (TNamed k (pctr s)) En) as PO. cbn [own List.app] in PO.
+    assert (Hfresh : ~ In (pctr s) (flat_map pend (threads s) ++ map fst (pglobals s))) by (intro H; specialize (HB _ H); lia).
+    split.
+    + unfold PI2. cbn [pctr pglobals pcache threads]. split; [|split; [|split; [|split; [|split; [|split; [|split]]]]]].
+      * eapply Permutation_NoDup; [apply Permutation_sym; apply Permutation_app_tail; exact PP|]. cbn [List.app]. constructor; assumption.
+      * intros m Hm. assert (Hm' : In m ((pctr s :: flat_map pend (threads s)) ++ map fst (pglobals s))) by (eapply Permutation_in; [apply Permutation_app_tail; exact PP|exact Hm]).
+        cbn [List.app In] in Hm'. destruct Hm' as [E|H]; [subst; lia|specialize (HB _ H); lia].
+      * exact HC.
+      * apply upd_Forall; [exact HD|exact I].
+      * eapply upd_Forall2; [exact HE|exact Ek|reflexivity].
+      * exact HF.
+      * eapply Permutation_NoDup; [apply Permutation_sym; exact PO|]. constructor; [intro H; specialize (HI _ H); lia|exact HG].
+      * intros m Hm Hc. assert (Hm' : In m (pctr s :: flat_map own (threads s))) by (eapply Permutation_in; [exact PO|exact Hm]).
+        destruct Hm' as [E|H]; [subst; specialize (HCL _ Hc); lia|exact (HH m H Hc)].
+    + cbn [pctr threads]. intros m Hm. assert (Hm' : In m (pctr s :: flat_map own (threads s))) by (eapply Permutation_in; [exact PO|exact Hm]).
+      destruct Hm' as [E|H]; [subst; lia|specialize (HI _ H); lia].
+  - (* define the global *)
+    cbn [agrees key_of] in Hag. inversion Hag; subst k0.
+    pose proof (fm_upd pend i (threads s) (TNamed k n) (TDefined k n) En) as PP. cbn [pend List.app] in PP.
+    pose proof (fm_upd own i (threads s) (TNamed k n) (TDefined k n) En) as PO. cbn [own] in PO. apply Permutation_cons_inv in PO.
+    assert (Q : Permutation (flat_map pend (upd i (TDefined k n) (threads s)) ++ n :: map fst (pglobals s)) (flat_map pend (threads s) ++ map fst (pglobals s))).
+    { eapply perm_trans; [apply Permutation_sym; apply Permutation_middle|]. apply (Permutation_app_tail _ PP). }
+    split; [|cbn [pctr threads]; intros m Hm; apply HI; eapply Permutation_in; [exact PO|exact Hm]].
+    unfold PI2. cbn [pctr pglobals pcache threads]. split; [|split; [|split; [|split; [|split; [|split; [|split]]]]]].
+    + cbn [map fst]. eapply Permutation_NoDup; [apply Permutation_sym; exact Q|exact HA].
+    + intros m Hm. cbn [map fst] in Hm. apply HB. eapply Permutation_in; [exact Q|exact Hm].
+    + intros k1 n1 H. right. apply HC. exact H.
+    + apply upd_Forall; [|cbn [owns]; left; reflexivity]. eapply Forall_impl; [|exact HD]. intros t0 H0. apply owns_mono. exact H0.
+    + eapply upd_Forall2; [exact HE|exact Ek|reflexivity].
+    + exact HF.
+    + eapply Permutation_NoDup; [apply Permutation_sym; exact PO|exact HG].
+    + intros m Hm. apply HH. eapply Permutation_in; [exact PO|exact Hm].
+  - (* store in the cache, possibly evicting *)
+    cbn [agrees key_of] in Hag. inversion Hag; subst k0. cbn [owns] in Hown.
+    pose proof (perm_nil_l _ _ (fm_upd pend i (threads s) (TDefined k n) (THolding k n) En)) as PP.
+    pose proof (fm_upd own i (threads s) (TDefined k n) (THolding k n) En) as PO. cbn [own List.app] in PO.
+    set (ts' := upd i (THolding k n) (threads s)) in *.
+    assert (HnO : In n (flat_map own (threads s))) by (eapply Permutation_in; [exact PO|left; reflexivity]).
+    assert (HnC : ~ In n (cnames (pcache s))) by (apply HH; exact HnO).
+    assert (HG' : NoDup (flat_map own ts') /\ ~ In n (flat_map own ts')).
+    { assert (N : NoDup (n :: flat_map own ts')) by (eapply Permutation_NoDup; [apply Permutation_sym; exact PO|exact HG]). inversion N; split; assumption. }
+    destruct HG' as [HG1 HG2].
+    assert (HD1 : Forall (fun t => owns t (pglobals s)) ts') by (apply upd_Forall; [exact HD|exact Hown]).
+    assert (HE1 : Forall2 agrees ks ts') by (eapply upd_Forall2; [exact HE|exact Ek|reflexivity]).
+    assert (HA1 : NoDup (flat_map pend ts' ++ map fst (pglobals s))) by (eapply Permutation_NoDup; [apply Permutation_app_tail; apply Permutation_sym; exact PP|exact HA]).
+    assert (HB1 : forall m, In m (flat_map pend ts' ++ map fst (pglobals s)) -> m < pctr s) by (intros m Hm; apply HB; eapply Permutation_in; [apply Permutation_app_tail; exact PP|exact Hm]).
+    assert (HI1 : forall m, In m (flat_map own ts') -> m < pctr s) by (intros m Hm; apply HI; eapply Permutation_in; [exact PO|right; exact Hm]).
+    assert (HO1 : forall m, In m (flat_map own ts') -> In m (flat_map own (threads s))) by (intros m Hm; eapply Permutation_in; [exact PO|right; exact Hm]).
+    unfold cache_insert. set (c1 := (k, n) :: pcache s).
+    assert (HF1 : NoDup (cnames c1)) by (cbn [c1 cnames map snd]; constructor; assumption).
+    assert (HC1 : forall k1 n1, In (k1, n1) c1 -> In (n1, k1) (pglobals s)) by (intros k1 n1 [E|H]; [inversion E; subst; exact Hown|apply HC; exact H]).
+    assert (HH1 : forall m, In m (flat_map own ts') -> ~ In m (cnames c1)).
+    { intros m Hm [E|Hc]; [cbn [snd] in E; subst; exact (HG2 Hm)|exact (HH m (HO1 m Hm) Hc)]. }
+    clearbody c1.
+    destruct (Nat.ltb cap (length c1)).
+    2:{ split; [|exact HI1]. unfold PI2. cbn [pctr pglobals pcache threads]. repeat split; assumption. }
+    destruct (rev c1) as [|[k' n'] t] eqn:Er.
+    { split; [|exact HI1]. unfold PI2. cbn [pctr pglobals pcache threads]. repeat split; assumption. }
+    apply rev_cons_shape in Er. subst c1. rewrite removelast_last.
+    unfold cnames in HF1. rewrite map_app in HF1. cbn [map snd] in HF1. pose proof (NoDup_remove _ _ _ HF1) as [HF2 Hn'].
+    rewrite app_nil_r in HF2, Hn'.
+    assert (HC2 : forall k1 n1, In (k1, n1) (rev t) -> In (n1, k1) (pglobals s) /\ n1 <> n').
+    { intros k1 n1 H. split; [apply HC1; apply in_or_app; left; exact H|]. intro E. subst n1. apply Hn'. change n' with (snd (k1, n')). apply in_map. exact H. }
+    assert (HH2 : forall m, In m (flat_map own ts') -> ~ In m (cnames (rev t))).
+    { intros m Hm Hc. apply (HH1 m Hm). unfold cnames. rewrite map_app. apply in_or_app. left. exact Hc. }
+    split; [|exact HI1]. unfold PI2. cbn [pctr pglobals pcache threads].
+    destruct (held n' ts') eqn:Eh.
+    + split; [exact HA1|]. split; [exact HB1|]. split; [intros k1 n1 H; apply (HC2 k1 n1 H)|]. split; [exact HD1|]. split; [exact HE1|].
+      split; [exact HF2|]. split; [exact HG1|exact HH2].
+    + split; [apply (NoDup_app_sub _ _ _ HA1); [apply gdel_nodup2; eapply NoDup_app_r; exact HA1|apply gdel_names_sub]|].
+      split; [intros m Hm; apply HB1; apply in_app_or in Hm; apply in_or_app; destruct Hm as [Hm|Hm]; [left; exact Hm|right; eapply gdel_names_sub; exact Hm]|].
+      split; [intros k1 n1 H; destruct (HC2 k1 n1 H) as [H1 H2]; apply In_gdel_other; assumption|].
+      split; [apply not_held_owns; assumption|]. split; [exact HE1|]. split; [exact HF2|]. split; [exact HG1|exact HH2].
+  - (* get(), then release *)
+    cbn [agrees key_of] in Hag. inversion Hag; subst k0. cbn [owns] in Hown.
+    pose proof (perm_nil_l _ _ (fm_upd pend i (threads s) (THolding k n) (TDone (glookup n (pglobals s))) En)) as PP.
+    pose proof (perm_nil_l _ _ (fm_upd own i (threads s) (THolding k n) (TDone (glookup n (pglobals s))) En)) as PO.
+    set (ts' := upd i (TDone (glookup n (pglobals s))) (threads s)) in *.
+    assert (Hr : glookup n (pglobals s) = Some k) by (apply glookup_In; [eapply NoDup_app_r; exact HA|exact Hown]).
+    assert (HD1 : Forall (fun t => owns t (pglobals s)) ts') by (apply upd_Forall; [exact HD|exact I]).
+    assert (HE1 : Forall2 agrees ks ts') by (eapply upd_Forall2; [exact HE|exact Ek|cbn [agrees]; exact Hr]).
+    assert (HA1 : NoDup (flat_map pend ts' ++ map fst (pglobals s))) by (eapply Permutation_NoDup; [apply Permutation_app_tail; apply Permutation_sym; exact PP|exact HA]).
+    assert (HB1 : forall m, In m (flat_map pend ts' ++ map fst (pglobals s)) -> m < pctr s) by (intros m Hm; apply HB; eapply Permutation_in; [apply Permutation_app_tail; exact PP|exact Hm]).
+    assert (HG1 : NoDup (flat_map own ts')) by (eapply Permutation_NoDup; [apply Permutation_sym; exact PO|exact HG]).
+    assert (HH1 : forall m, In m (flat_map own ts') -> ~ In m (cnames (pcache s))) by (intros m Hm; apply HH; eapply Permutation_in; [exact PO|exact Hm]).
+    assert (HI1 : forall m, In m (flat_map own ts') -> m < pctr s) by (intros m Hm; apply HI; eapply Permutation_in; [exact PO|exact Hm]).
+    split; [|exact HI1]. unfold PI2. cbn [pctr pglobals pcache threads].
+    destruct (existsb (Nat.eqb n) (cnames (pcache s))) eqn:Ec; cbn [orb].
+    + repeat split; assumption.
+    + destruct (held n ts') eqn:Eh.
+      * repeat split; assumption.
+      * pose proof (existsb_eqb_false _ _ Ec) as HnC.
+        split; [apply (NoDup_app_sub _ _ _ HA1); [apply gdel_nodup2; eapply NoDup_app_r; exact HA1|apply gdel_names_sub]|].
+        split; [intros m Hm; apply HB1; apply in_app_or in Hm; apply in_or_app; destruct Hm as [Hm|Hm]; [left; exact Hm|right; eapply gdel_names_sub; exact Hm]|].
+        split; [intros k1 n1 H; apply In_gdel_other; [intro E; subst n1; apply HnC; change n with (snd (k1, n)); apply in_map; exact H|apply HC; exact H]|].
+        split; [apply not_held_owns; assumption|]. split; [exact HE1|]. split; [exact HF|]. split; [exact HG1|exact HH1].
+  - split; [repeat split; assumption|exact HI].
+Qed.
+
+Theorem prun2_inv cap ks : forall sched s, PI3 ks s -> PI3 ks (prun2 cap s sched).
+Proof. induction sched as [|i sched IH]; intros s H; cbn [prun2]; [exact H|]. apply IH. apply pstep2_inv. exact H. Qed.
+
+Lemma PI3_start ks (s : cstate) : SI s -> NoDup (map fst (globals s)) ->
+  PI3 ks (mkP (ctr s) (globals s) (cache s) (map TStart ks)).
+Proof.
+  intros HS ND. pose proof HS as [Ha [Hb Hd]].
+  assert (P0 : flat_map pend (map TStart ks) = []) by (clear; induction ks as [|k ks IH]; [reflexivity|cbn [map flat_map pend List.app]; exact IH]).
+  assert (O0 : flat_map own (map TStart ks) = []) by (clear; induction ks as [|k ks IH]; [reflexivity|cbn [map flat_map own List.app]; exact IH]).
+  split; [|cbn [threads]; rewrite O0; intros n []].
+  unfold PI2. cbn [pctr pglobals pcache threads]. rewrite P0, O0. cbn [List.app].
+  split; [exact ND|]. split.
+  { intros n Hin. apply in_map_iff in Hin. destruct Hin as [[m k] [E H]]. cbn [fst] in E. subst m. exact (Hd n k H). }
+  split; [intros k n Hin; destruct (Ha k n Hin) as [_ G]; apply glookup_Some_In; exact G|].
+  split; [apply Forall_forall; intros t Ht; apply in_map_iff in Ht; destruct Ht as [k [E _]]; subst t; exact I|].
+  split; [clear; induction ks as [|k ks IH]; cbn [map]; [constructor|constructor; [reflexivity|exact IH]]|].
+  split; [exact Hb|]. split; [constructor|intros n []].
+Qed.
+
+(* any sequential history, then any number of threads under any schedule, evictions included *)
+Theorem concurrent_with_eviction cap hist ks sched s rs :
+  run_calls cap cinit hist = (s, rs) ->
+  Forall2 agrees ks (threads (prun2 cap (mkP (ctr s) (globals s) (cache s) (map TStart ks)) sched)).
+Proof.
+  intro H. destruct (run_calls_correct cap hist cinit s rs SI_init H) as [_ HS].
+  pose proof (run_calls_nodup cap hist cinit s rs SI_init (NoDup_nil _) H) as ND.
+  destruct (prun2_inv cap ks sched _ (PI3_start ks s HS ND)) as [[_ [_ [_ [_ [HE _]]]]] _]. exact HE.
+Qed.
